@@ -1,4 +1,4 @@
-use crate::internal::{consts, MiniAllocator, ObjType, SectorInit, Version};
+use crate::internal::{consts, MiniAllocator, SectorInit, Version};
 use std::io::{self, BufRead, Read, Seek, SeekFrom, Write};
 #[cfg(cfb_verif)]
 use crate::internal::sync::RwLock;
@@ -17,6 +17,7 @@ use crate::internal::stream_buffer::StreamBuffer;
 pub struct Stream<F> {
     minialloc: Weak<RwLock<MiniAllocator<F>>>,
     stream_id: u32,
+    generation: u32,
     total_len: u64,
     buffer: StreamBuffer,
     buf_offset_from_start: u64,
@@ -29,11 +30,17 @@ impl<F> Stream<F> {
         stream_id: u32,
         max_buffer_size: usize,
     ) -> Stream<F> {
-        let total_len =
-            minialloc.read().unwrap().dir_entry(stream_id).stream_len;
+        let (generation, total_len) = {
+            let minialloc = minialloc.read().unwrap();
+            (
+                minialloc.dir_entry_generation(stream_id),
+                minialloc.dir_entry(stream_id).stream_len,
+            )
+        };
         Stream {
             minialloc: Arc::downgrade(minialloc),
             stream_id,
+            generation,
             total_len,
             buffer: StreamBuffer::new(max_buffer_size),
             buf_offset_from_start: 0,
@@ -97,6 +104,7 @@ impl<F: Read + Write + Seek> Stream<F> {
             resize_stream(
                 &mut minialloc.write().unwrap(),
                 self.stream_id,
+                self.generation,
                 size,
             )?;
             self.total_len = size;
@@ -126,11 +134,13 @@ impl<F: Read + Seek> BufRead for Stream<F> {
             self.buf_offset_from_start += self.buffer.cursor() as u64;
             let remaining = self.total_len - self.buf_offset_from_start;
             let stream_id = self.stream_id;
+            let generation = self.generation;
             let offset = self.buf_offset_from_start;
             let result = self.buffer.refill_with(remaining, |buf| {
                 read_data_from_stream(
                     &mut minialloc.write().unwrap(),
                     stream_id,
+                    generation,
                     offset,
                     buf,
                 )
@@ -291,6 +301,7 @@ impl<F: Read + Write + Seek> Flusher<F> for FlushBuffer {
         write_data_to_stream(
             &mut minialloc.write().unwrap(),
             stream.stream_id,
+            stream.generation,
             stream.buf_offset_from_start,
             stream.buffer.filled_slice(),
         )?;
@@ -306,12 +317,12 @@ impl<F: Read + Write + Seek> Flusher<F> for FlushBuffer {
 fn read_data_from_stream<F: Read + Seek>(
     minialloc: &mut MiniAllocator<F>,
     stream_id: u32,
+    generation: u32,
     buf_offset_from_start: u64,
     buf: &mut [u8],
 ) -> io::Result<usize> {
     let (start_sector, stream_len) = {
-        let dir_entry = minialloc.dir_entry(stream_id);
-        debug_assert_eq!(dir_entry.obj_type, ObjType::Stream);
+        let dir_entry = minialloc.stream_dir_entry(stream_id, generation)?;
         (dir_entry.start_sector, dir_entry.stream_len)
     };
     let num_bytes = if buf_offset_from_start >= stream_len {
@@ -360,12 +371,12 @@ fn check_stream_len(version: Version, stream_len: u64) -> io::Result<()> {
 fn write_data_to_stream<F: Read + Write + Seek>(
     minialloc: &mut MiniAllocator<F>,
     stream_id: u32,
+    generation: u32,
     buf_offset_from_start: u64,
     buf: &[u8],
 ) -> io::Result<()> {
     let (old_start_sector, old_stream_len) = {
-        let dir_entry = minialloc.dir_entry(stream_id);
-        debug_assert_eq!(dir_entry.obj_type, ObjType::Stream);
+        let dir_entry = minialloc.stream_dir_entry(stream_id, generation)?;
         (dir_entry.start_sector, dir_entry.stream_len)
     };
     if buf_offset_from_start > old_stream_len {
@@ -464,11 +475,11 @@ fn write_zeros<W: Write>(writer: &mut W, len: u64) -> io::Result<()> {
 fn resize_stream<F: Read + Write + Seek>(
     minialloc: &mut MiniAllocator<F>,
     stream_id: u32,
+    generation: u32,
     new_stream_len: u64,
 ) -> io::Result<()> {
     let (old_start_sector, old_stream_len) = {
-        let dir_entry = minialloc.dir_entry(stream_id);
-        debug_assert_eq!(dir_entry.obj_type, ObjType::Stream);
+        let dir_entry = minialloc.stream_dir_entry(stream_id, generation)?;
         (dir_entry.start_sector, dir_entry.stream_len)
     };
     // Refuse lengths that no chain can have before touching anything.
